@@ -100,16 +100,36 @@ def cholds (cfg : CCfg) (h : List (PRec σ)) : Bool := choldsRev cfg h.reverse
 
 /-! ### throttling remedy -/
 
+/-- The provider's Retry-After as a number of ns after the store instant `t0`: the numeric value, or — for an
+    HTTP-date — the distance from `t0` to that date.  HTTP header names are case-insensitive: the value counts
+    whatever the letter case of the name it arrived under. -/
+def origNs (r : Resp σ) (t0 : Int) : Option Int :=
+  match r.raNs with
+  | some n => some n
+  | none => r.raDate.map fun d => d - t0
+
+/-- The provider's instant (ns since the epoch) under an absolute policy: epoch seconds, or an HTTP-date. -/
+def instNs (r : Resp σ) : Option Int :=
+  match r.raNs with
+  | some n => some n
+  | none => r.raDate
+
 def tJustifies (cfg : TCfg) (t : Int) (m u : σ) (st : Nat) (body : σ) (tag : Option σ)
     (ra : RaOut σ) (r0 : PRec σ) : Bool :=
   match r0.op with
   | .resp m0 u0 _ r _ _ =>
     decide (m0 = m) && decide (u0 = u) && cfg.statuses.contains r.status
     && decide (r.status = st) && decide (r.body = body) && decide (r.tag = tag) && decide (r0.t ≤ t)
-    && (match cfg.type, r.raNs with
-        | .rel, some n => decide (t - r0.t < n) && decide (ra = .ns (n - (t - r0.t)))
-        | .abs, some n => decide (t ≤ n) && decide (ra = .raw r.ra)
-        | _, _ => false)
+    && (match cfg.type with
+        | .rel =>
+          match origNs r r0.t with
+          | some n => decide (t - r0.t < n) && decide (ra = .ns (n - (t - r0.t)))
+          | none => false
+        | .abs =>
+          match instNs r with
+          | some n => decide (t ≤ n) && decide (ra = .raw r.ra)
+          | none => false
+        | .undef => false)
   | _ => false
 
 def tRecOk (cfg : TCfg) (r : PRec σ) (older : List (PRec σ)) : Bool :=
